@@ -2,6 +2,7 @@ SPECIFICATION Spec
 CONSTANTS
   MaxLen = 5
   Detect = TRUE
+  Tr = "sgio"
 INVARIANT SameMedium
 INVARIANT FreshAfterSuccess
 CHECK_DEADLOCK FALSE
